@@ -16,6 +16,7 @@ pub mod c15;
 pub mod c16;
 pub mod c17;
 pub mod c18;
+pub mod c19;
 pub mod common;
 
 pub fn run(id: &str, tier: Tier, seed: u64) -> i32 {
@@ -37,6 +38,7 @@ pub fn run(id: &str, tier: Tier, seed: u64) -> i32 {
         "C16" => c16::run(tier, seed),
         "C17" => c17::run(tier, seed),
         "C18" => c18::run(tier, seed),
+        "C19" => c19::run(tier, seed),
         _ => {
             eprintln!("no check for {}", id);
             2
@@ -63,6 +65,7 @@ pub fn replay(id: &str, case: &serde_json::Value) -> CaseResult {
         "C16" => c16::replay(case),
         "C17" => c17::replay(case),
         "C18" => c18::replay(case),
+        "C19" => c19::replay(case),
         _ => panic!("no check for {}", id),
     }
 }
